@@ -235,6 +235,9 @@ def check_interp_planar(de, case, emb, triples=False):
     pos = match_originals(out, path, flags)
     if pos is None:
         return 'original points are not kept in order', out
+    for k, i in enumerate(pos):
+        if tuple(out[i]) != tuple(path[k]):       # kept as given, including a time component
+            return f'original point {path[k]} comes back as {out[i]}', out
     for i in range(len(out) - 1):
         if dist(out[i], out[i + 1]) > dd + tol:
             return f'gap {dist(out[i], out[i + 1])!r} between output points {i},{i + 1} exceeds spacing {dd!r}', out
@@ -324,6 +327,9 @@ def check_interp_latlon(dl, case, s, anchor, triples=False):
     pos = match_originals(out, path, None)
     if pos is None:
         return 'original points are not kept in order', out
+    for k, i in enumerate(pos):
+        if tuple(out[i]) != tuple(path[k]):
+            return f'original point {path[k]} comes back as {out[i]}', out
     for i in range(len(out) - 1):
         g = gc_dist(out[i], out[i + 1])
         if g > dd + tol:
